@@ -76,6 +76,28 @@ func loadProg(repo, tags string, controls map[string][]byte) (*Prog, error) {
 		return nil, fmt.Errorf("packages.Load: %w", err)
 	}
 	if fstats != nil && len(fstats.Inlined) > 0 && moduleHasTypeErrors(pkgs) {
+		// second attempt: expand the helpers but keep every declaration
+		flattenDropDead = false
+		fo, st, ferr := flattenOverlay(repo, flattenVerifDir, tags)
+		flattenDropDead = true
+		if ferr == nil {
+			for k := range cfg.Overlay {
+				if !strings.Contains(k, controlsRel) {
+					delete(cfg.Overlay, k)
+				}
+			}
+			for k, v := range fo {
+				cfg.Overlay[k] = v
+			}
+			st.Skipped = append(st.Skipped, "removal of unreferenced helpers was undone: the files did not type-check without them")
+			fstats = st
+			pkgs, err = packages.Load(cfg, patterns...)
+			if err != nil {
+				return nil, fmt.Errorf("packages.Load: %w", err)
+			}
+		}
+	}
+	if fstats != nil && len(fstats.Inlined) > 0 && moduleHasTypeErrors(pkgs) {
 		// never let the normalisation break the analysis: fall back to the files as they are
 		for k := range cfg.Overlay {
 			if !strings.Contains(k, controlsRel) {
